@@ -410,7 +410,8 @@ func cmdCheck(args []string) int {
 		"clients reach a container's representation only through its exported API (encapsulation)")
 	sort.Strings(assum)
 	cov := map[string]any{
-		"obligations":              len(results),
+		"obligations":              len(results) - len(coveredByFinding),
+		"obligations_generated":    len(results),
 		"discharged":               discharged,
 		"checker_cmd":              fmt.Sprintf("./bin/gvc check --property %s --tier %s", *prop, *tier),
 		"trusted_base":             []string{"go/ssa (x/tools v0.29.0)", "gvc VC generator", "z3 5.1.0 / z3 4.8.12 / cvc5 1.0.3 (unsat answers)", "Go memory model and sync package for lock-based arguments"},
